@@ -132,8 +132,13 @@ def py_run(ops: Sequence[Op]) -> List[Any]:
 
 def rs_run(seqs: Sequence[Sequence[Op]]) -> List[Dict[str, Any]]:
     """One result per sequence: {"obs": [...]} | {"error": str} | {"panic": str}."""
-    rust = rsclient.shared()
-    resp = rust.call({"cmd": "c08.run", "seqs": [list(s) for s in seqs]})
+    req = {"cmd": "c08.run", "seqs": [list(s) for s in seqs]}
+    try:
+        resp = rsclient.shared().call(req)
+    except HarnessError:
+        # the harness process died (seen once on a heavily loaded machine); every history starts from a fresh
+        # register file, so one retry on a new process is safe.  A second failure is a harness error (exit 2).
+        resp = rsclient.shared().call(req)
     if resp.get("ok"):
         return resp["results"]
     if "panic" in resp:
@@ -615,6 +620,8 @@ def eval_batch(items: List[Tuple[str, List[Op]]], rep: Report) -> None:
                 sample = {"family": family, "ops": ops if len(ops) <= 24 else ops[:24] + [["..."]],
                           "n_ops": len(ops), "violations": len(viols)}
             lab = sorted(set(labels)) + [family, "len:%s" % ("1-8" if len(ops) <= 8 else "9-24" if len(ops) <= 24 else "25+")]
+            if nt:
+                lab.append("nontrivial-in:" + family)
             rep.case(jhash(ops) if nt else None, lab, sample)
 
 
